@@ -231,7 +231,7 @@ fn run_script(sc: &Script, ctx: &mut Ctx) -> Result<(), Fail> {
     let emitted: Mutex<HashMap<String, Emitted>> = Mutex::new(HashMap::new());
     let mut global = 0u64;
     let mut seqs = vec![0u64; sc.emitters + 1]; // last index = the harness's own probe "thread"
-    let deadline = Duration::from_secs(6);
+    let deadline = Duration::from_secs(12);
     let mut emit = |thread: usize, pad: bool, seqs: &mut Vec<u64>, global: &mut u64| -> String {
         let seq = seqs[thread];
         seqs[thread] += 1;
@@ -505,6 +505,16 @@ fn run_script(sc: &Script, ctx: &mut Ctx) -> Result<(), Fail> {
                         ensure!(labels.iter().any(|(k, v)| k == "é" && v == "v"), "metric-labels-changed", "client {}: labels {:?}", ci, labels.iter().map(|l| &l.0).collect::<Vec<_>>());
                         let prev = last_seq.insert(want.thread, want.seq);
                         ensure!(prev.map(|p| p < want.seq).unwrap_or(true), "per-thread-order-violated", "client {}: emission {:?} arrived after a later one of the same thread", ci, tag);
+                        // without a buffer limit nothing is ever discarded for a client, however slow it is: once it has
+                        // received one emission of a thread, it receives that thread's following emissions without a gap
+                        if sc.buffer.is_none() {
+                            if let Some(p) = prev {
+                                ensure!(want.seq == p + 1, "emission-skipped-without-a-buffer-limit", "client {} ({:?}, buffer_size None): after emission #{} of emitting thread {} it received #{} ({:?}) — {} emission(s) in between were dropped although no limit is configured", ci, c.spec.behaviour, p, want.thread, want.seq, tag, want.seq - p - 1);
+                                if c.spec.behaviour == Behaviour::Staller {
+                                    ctx.class("stalled-client-without-limit-received-a-gapless-run");
+                                }
+                            }
+                        }
                     }
                 }
             }
